@@ -23,6 +23,7 @@ func runC09(cases string, res *Result) {
 	c09RangeBounds(res)
 	c09NullOverOuterNames(res)
 	c09DefinedNullsUnderStrictVariables(res)
+	c09SetsKeepTheirValues(res)
 	var firstKnown = map[string]*Finding{}
 	var knownSize = map[string]int{}
 	readCases(cases, func(c Case) {
